@@ -85,6 +85,8 @@ class _Service(Controller, _Recorder):
 @service(flavour=trio)
 class DSvcTrio(_Service):
     async def run(self):
+        if not hasattr(self, "label"):
+            emit("run-before-init", kind=type(self).__name__)
         emit("run", id=self.label, **_context())
         try:
             count = 0
@@ -101,6 +103,8 @@ class DSvcTrio(_Service):
 @service(flavour=asyncio)
 class DSvcAsyncio(_Service):
     async def run(self):
+        if not hasattr(self, "label"):
+            emit("run-before-init", kind=type(self).__name__)
         emit("run", id=self.label, **_context())
         try:
             count = 0
@@ -117,6 +121,8 @@ class DSvcAsyncio(_Service):
 @service(flavour=threading)
 class DSvcThread(_Service):
     def run(self):
+        if not hasattr(self, "label"):
+            emit("run-before-init", kind=type(self).__name__)
         emit("run", id=self.label, **_context())
         count = 0
         while True:
@@ -136,6 +142,8 @@ class DDecoSvc(PoolDecorator, _Recorder):
         self._constructed(label)
 
     async def run(self):
+        if not hasattr(self, "label"):
+            emit("run-before-init", kind=type(self).__name__)
         emit("run", id=self.label, **_context())
         try:
             count = 0
